@@ -9,6 +9,10 @@ def run(tier, seed):
 
     # run-time-error freedom of the token-driven methods: exhaustive over the look-ahead classes, callees by contract
     res = G.gx(None, ["rte"], "C06/gx", tier)
+    # the same on ARBITRARY (invalid) token sequences, including end of input at every position; every ParseError raised
+    # there carries a coordinate or the file name as its location
+    from pyvc import gx_obligations as GO
+    res.add(GO.run_may(None, ["rte", "errloc"], "C06/gx", tier))
     # helpers that walk unbounded data / hold the invariants: SMT (IndexError, KeyError, AssertionError, AttributeError, TypeError)
     res.add(run_functions(TS.FUNCTIONS + [f for f in PC.CORE_FUNCTIONS if f not in ("CLexer._init_state", "CLexer.input")], "C06/smt", tier))
     try:
